@@ -20,6 +20,32 @@ def parseFill (t : String) : Option UInt8 :=
     | _ => none
   else none
 
+/-- `BKDR`: `next()` until it returns `None`; when that was caused by the stop flag (not by undecodable bytes) and script
+items remain, the caller resumes (sets the flag again, calls `next()` on the same backend), marking the pause `NONE` -/
+def runResume : Nat → Backend → List Rx → List String → Out (List String)
+  | 0, _, _, acc => .ok acc
+  | fuel + 1, b, rx, acc =>
+    match next b rx with
+    | .panic => .panic
+    | .err => .err
+    | .ok (some p, b', rx') => runResume fuel b' rx' (acc ++ [s!"{p.2} {showMsg p.1 0}"])
+    | .ok (none, b', rx') =>
+      let stopped := if b.readUntil < b.totRead then false else (getNextRead b rx).1.isNone
+      if !stopped then .ok (acc ++ ["FAILED"])
+      else if rx'.isEmpty then .ok acc else runResume fuel b' rx' (acc ++ ["NONE"])
+
+def bkdr (args : List String) : String :=
+  match args with
+  | f :: items =>
+    match parseFill f, items.mapM parseRx with
+    | some fill, some rx =>
+      match runResume (2 * rxFuel rx + 2) (Backend.new (List.replicate 1024 fill)) rx [] with
+      | .ok ys => joinWith " | " (ys ++ ["END"])
+      | .err => "ERR"
+      | .panic => "PANIC"
+    | _, _ => "BADARG"
+  | _ => "BADARG"
+
 def bkd (args : List String) : String :=
   match args with
   | f :: items =>
